@@ -1,6 +1,6 @@
 (* C03 — protected paths: executable model of basicauth.BasicAuth.ServeHTTP's decision, of
    internalsrv.Internal's path test and of the path the static file resolver opens. *)
-Require Import V.Lib V.GoPath.
+Require Import V.Lib V.GoPath V.GoPathProofs V.Gen_C09.
 Open Scope N_scope.
 
 Record rule := { r_resources : list bytes; r_exclude : list bytes; r_creds_ok : bool }.
@@ -239,6 +239,34 @@ Definition scope_within (p : bytes) (k : read_kind) (b : bytes) : bool :=
 (* declarative protection of a canonical resource name by a rule *)
 Definition protects_res (cs : bool) (f : bytes) (ru : rule) : bool :=
   existsb (under cs f) (r_resources ru) && negb (existsb (under cs f) (r_exclude ru)).
+
+(* ---- the statement of the chain theorem ---- *)
+Definition chain_of (s : site) : list mw := stack s gen_directives.
+Definition writers_rooted (stk : list mw) : Prop :=
+  forall f, In (MWriter f) stk -> forall x, rooted x -> rooted (f x).
+
+(* request q, sent without valid credentials, makes the content handlers of chain stk read resource
+   f (kind k), and f lies under resource [res] of basicauth rule [ru] and outside ru's exclusions *)
+Record protected_read (cs : bool) (idx exts : list bytes) (stk : list mw) (q : request)
+       (k : read_kind) (f : bytes) (ru : rule) (res : bytes) : Prop := {
+  pr_rooted : rooted (q_path q);
+  pr_writers : writers_rooted stk;
+  pr_not_options : q_options q = false;
+  pr_no_creds : forall r0, In r0 (auth_rules stk) -> r_creds_ok r0 = false;
+  pr_reads : reads idx exts (final_path stk (q_path q)) k f;
+  pr_rule : In ru (auth_rules stk);
+  pr_res : In res (r_resources ru);
+  pr_under : under cs f res = true;
+  pr_not_excl : forall e, In e (r_exclude ru) -> under cs f e = false /\ matcher_form e <> [SLASH; SLASH] }.
+
+(* the same for an internal location [pre] *)
+Record internal_read (cs : bool) (idx exts : list bytes) (stk : list mw) (q : request)
+       (k : read_kind) (f : bytes) (pre : bytes) : Prop := {
+  ir_rooted : rooted (q_path q);
+  ir_writers : writers_rooted stk;
+  ir_reads : reads idx exts (final_path stk (q_path q)) k f;
+  ir_paths : exists ps, internal_paths stk = Some ps /\ In pre ps;
+  ir_under : under cs f pre = true }.
 
 (* ---- scripted handler used by the correspondence cases ---- *)
 Definition ECHO : bytes := bs "ECHO"%string.
